@@ -98,4 +98,72 @@ def sendFuncR (m : SMode) (recv : Option SErr) (outs : List (Option SErr)) : Nat
     blocked handing it to the receiver) is not dispatched again. -/
 def sendFuncClosed : Nat × Final := (1, .other)
 
+/-! ### what a FAILED `batch2.Dispatch` has already handed to the nodes
+    (pkg/redis/client/cluster/batch_pipe.go)
+
+    ```go
+    func (batch *batch2) Put(cmd, args...) error {
+        node, keys, err := batch.cluster.chooseNodeWithCmdAndKeys(cmd, false, args...)
+        if err != nil { return batch.joinError(err) }          // recorded in bat.err, nothing queued
+        if node == nil { return nil }                          // multi / exec / select: dropped
+        node = pinBatchRoute(batch.routes, node, keys)
+        for i := range batch.batches { if batch.batches[i].node == node { append; return nil } }
+        if batch.cluster.transactionEnable && len(batch.batches) == 1 { return batch.joinError(ErrCrossSlots) }
+        batch.batches = append(batch.batches, nodeBatch{node: node, …})
+    }
+    func (bat *batch2) Dispatch() error {
+        if len(bat.batches) == 0 { return nil }
+        if bat.err != nil { return bat.err }                   // before anything is submitted
+        for i := range bat.batches {
+            …
+            if err := bat.pipeline.getNodePipeline(batch.node).Submit(req); err != nil { return err }
+        }
+        return nil
+    }
+    ```
+    `Submit` either queues the request or fails (node pipeline closed), never both
+    (node_pipeline.go: one `select` between `<-p.closeCh` and `p.reqCh <- req`). -/
+
+structure PutSt where
+  nodes : List Nat := []     -- the node of every node batch, in creation order
+  err : Bool := false        -- bat.err ≠ nil
+  deriving DecidableEq, Repr
+
+inductive PutEv where
+  | routed (node : Nat)      -- chooseNodeWithCmdAndKeys (+ pinBatchRoute) gave this node
+  | refused                  -- chooseNodeWithCmdAndKeys returned an error (no slot owner, MSET over two nodes, …)
+  deriving DecidableEq, Repr
+
+/-- `txn` = cluster.transactionEnable (set by Put("multi"), the sender's transactional path) -/
+def put (txn : Bool) (s : PutSt) : PutEv → PutSt
+  | .refused => { s with err := true }
+  | .routed nd =>
+    if nd ∈ s.nodes then s
+    else if txn = true ∧ s.nodes.length = 1 then { s with err := true }
+    else { s with nodes := s.nodes ++ [nd] }
+
+def puts (txn : Bool) : PutSt → List PutEv → PutSt
+  | s, [] => s
+  | s, e :: es => puts txn (put txn s e) es
+
+/-- `failAt = some k`: the Submit of node batch `k` fails. Result: the node batches whose request
+    was queued (they WILL be written to their node), and whether Dispatch returned nil. -/
+def dispatch (s : PutSt) (failAt : Option Nat) : List Nat × Bool :=
+  if s.nodes = [] then ([], true)
+  else if s.err = true then ([], false)
+  else match failAt with
+    | some k => if k < s.nodes.length then (s.nodes.take k, false) else (s.nodes, true)
+    | none => (s.nodes, true)
+
+/-- one `sendFuncOnce` of the pipelined sender: what was submitted and the error class returned
+    (`cs`: the recorded Put error is the cross-slot one) -/
+def onceP (s : PutSt) (cs : Bool) (failAt : Option Nat) : List Nat × Option SErr :=
+  ((dispatch s failAt).1,
+   if (dispatch s failAt).2 = true then none else some (if cs = true then .crossslot else .other))
+
+/-- every node batch submitted by `sendFunc` over the successive attempts on one queue
+    (`fs`: where the Dispatch of each attempt fails, if it does) -/
+def submitted (m : SMode) (s : PutSt) (cs : Bool) (fs : List (Option Nat)) (r : Nat) : List Nat :=
+  ((fs.take (sendFunc m (fs.map (fun f => (onceP s cs f).2)) r).1).map (fun f => (onceP s cs f).1)).flatten
+
 end GunYu.ClusterSender
